@@ -29,6 +29,13 @@ def src_hash(obj):
     return hashlib.sha1(s.encode()).hexdigest()[:10]
 
 
+def soft_attr(owner, name):
+    """A private function of the code named in run.uses(): if a refactoring removed or renamed it, record that instead of
+    failing the whole check on the attribute access (the obligations themselves decide whether behaviour changed)."""
+    v = getattr(owner, name, None)
+    return v if v is not None else "missing:%s.%s" % (getattr(owner, "__name__", owner), name)
+
+
 def func_id(obj):
     mod = getattr(obj, "__module__", "?")
     qn = getattr(obj, "__qualname__", getattr(obj, "__name__", repr(obj)))
